@@ -1,0 +1,15 @@
+//go:build verif
+
+package kvstore
+
+// VerifHook, when set, is called at the yield points named below. It exists only in builds with the
+// "verif" tag and lets a verification harness force a particular interleaving.
+//
+// Points: "BatchedWriter.Enqueue:after-running-check" (between the running check and the queue send).
+var VerifHook func(point string)
+
+func verifYield(point string) {
+	if h := VerifHook; h != nil {
+		h(point)
+	}
+}
